@@ -1243,7 +1243,25 @@ def ones(shape, dtype=float):
 
 
 def empty(shape, dtype=float):
-    return full(shape, 0, dtype)
+    """uninitialised memory: fresh unconstrained cells (DESIGN 3.2.6)"""
+    shape = _shape_arg(shape)
+    dt = globals()["dtype"](dtype)
+    n = _prod(shape)
+    return ndarray(_Store([_fresh_cell(dt) for _ in range(n)]), list(range(n)), shape, dt)
+
+
+def _fresh_cell(dt):
+    e = E()
+    name = e.fresh_name("n_empty")
+    if dt.kind == "b":
+        return z3.Bool(name)
+    if dt.kind == "f":
+        e.has_bv = True
+        return z3.BitVec(name, dt.bits)
+    v = z3.Int(name)
+    if dt.kind == "u":
+        e.add(v >= 0)
+    return v
 
 
 def _shape_arg(shape):
@@ -1288,7 +1306,7 @@ def empty_like(a, dtype=None, shape=None):
         if shape is not None:
             kw["shape"] = shape
         return _dispatch(empty_like, (a,), kw)
-    return full(a.shape if shape is None else shape, 0, dtype or a.dtype)
+    return empty(a.shape if shape is None else shape, dtype or a.dtype)
 
 
 def arange(*args, dtype=None):
